@@ -9,6 +9,7 @@ import (
 	"math"
 	"math/rand"
 	"net"
+	"sync"
 	"time"
 
 	"github.com/anyproto/any-sync/app/ldiff"
@@ -365,6 +366,83 @@ func (s *scriptConn) SetDeadline(t time.Time) error      { return nil }
 func (s *scriptConn) SetReadDeadline(t time.Time) error  { return nil }
 func (s *scriptConn) SetWriteDeadline(t time.Time) error { return nil }
 
+// stallConn is a peer that sends its scripted bytes and then neither sends more nor closes: Read parks
+// until the local side closes the connection. The handshake is then run under a short context deadline,
+// as the transports do; after the call has returned the harness waits until the library's own worker
+// goroutine has left the connection (its pending Read woke up and it either wrote its error ack or
+// closed) - a worker that touches recycled state at that point takes the whole process down
+// (added after seeded change C11-5 was missed: every scripted peer used to end in EOF).
+type stallConn struct {
+	mu       sync.Mutex
+	in       []byte
+	chunked  bool
+	closed   chan struct{}
+	isClosed bool
+	parked   bool          // a Read is (or was) parked waiting for the close
+	left     chan struct{} // closed when the parked Read has returned and the reader came back with Write/Close, or never parked
+	leftOnce sync.Once
+}
+
+func newStallConn(in []byte, chunked bool) *stallConn {
+	return &stallConn{in: in, chunked: chunked, closed: make(chan struct{}), left: make(chan struct{})}
+}
+
+func (s *stallConn) Read(p []byte) (int, error) {
+	s.mu.Lock()
+	if len(s.in) > 0 {
+		n := len(p)
+		if s.chunked && n > 3 {
+			n = 3
+		}
+		if n > len(s.in) {
+			n = len(s.in)
+		}
+		copy(p, s.in[:n])
+		s.in = s.in[n:]
+		s.mu.Unlock()
+		return n, nil
+	}
+	s.parked = true
+	s.mu.Unlock()
+	<-s.closed
+	return 0, io.ErrClosedPipe
+}
+func (s *stallConn) after() {
+	s.mu.Lock()
+	p, c := s.parked, s.isClosed
+	s.mu.Unlock()
+	if p && c {
+		s.leftOnce.Do(func() { close(s.left) })
+	}
+}
+func (s *stallConn) Write(p []byte) (int, error) {
+	s.mu.Lock()
+	c := s.isClosed
+	s.mu.Unlock()
+	s.after()
+	if c {
+		return 0, io.ErrClosedPipe
+	}
+	return len(p), nil
+}
+func (s *stallConn) Close() error {
+	s.mu.Lock()
+	first := !s.isClosed
+	s.isClosed = true
+	s.mu.Unlock()
+	if first {
+		close(s.closed)
+	} else {
+		s.after()
+	}
+	return nil
+}
+func (s *stallConn) LocalAddr() net.Addr                { return &net.TCPAddr{} }
+func (s *stallConn) RemoteAddr() net.Addr               { return &net.TCPAddr{} }
+func (s *stallConn) SetDeadline(t time.Time) error      { return nil }
+func (s *stallConn) SetReadDeadline(t time.Time) error  { return nil }
+func (s *stallConn) SetWriteDeadline(t time.Time) error { return nil }
+
 func frame(tp byte, payload []byte) []byte {
 	b := []byte{tp, 0, 0, 0, 0}
 	binary.LittleEndian.PutUint32(b[1:], uint32(len(payload)))
@@ -424,6 +502,71 @@ func runHandshake(c *lib.Case, g *guard, n int) {
 			m.Class = "transcript:" + m.Class
 		}
 		in := m.Data
+		if r.Intn(6) == 0 {
+			// the peer stalls (often in the middle of a frame) instead of closing; the call runs under a deadline
+			cut := len(in)
+			if cut > 0 && r.Intn(3) != 0 {
+				cut = r.Intn(cut + 1)
+			}
+			sc := newStallConn(append([]byte(nil), in[:cut]...), r.Intn(3) == 0)
+			m.Class = "stalled-peer:" + m.Class
+			cc := peerSign
+			if r.Intn(4) == 0 {
+				cc = noVerify
+			}
+			var sub string
+			var sf func(ctx context.Context) error
+			switch i % 4 {
+			case 0:
+				sub = "IncomingHandshake"
+				sf = func(ctx context.Context) error {
+					_, err := handshake.IncomingHandshake(ctx, sc, them.PeerId, cc)
+					return err
+				}
+			case 1:
+				sub = "OutgoingHandshake"
+				sf = func(ctx context.Context) error {
+					_, err := handshake.OutgoingHandshake(ctx, sc, them.PeerId, cc)
+					return err
+				}
+			case 2:
+				sub = "IncomingProtoHandshake"
+				sf = func(ctx context.Context) error {
+					_, err := handshake.IncomingProtoHandshake(ctx, sc, handshake.ProtoChecker{AllowedProtoTypes: []handshakeproto.ProtoType{handshakeproto.ProtoType_DRPC},
+						SupportedEncodings: []handshakeproto.Encoding{handshakeproto.Encoding_Snappy}})
+					return err
+				}
+			default:
+				sub = "OutgoingProtoHandshake"
+				sf = func(ctx context.Context) error {
+					_, err := handshake.OutgoingProtoHandshake(ctx, sc, &handshakeproto.Proto{Proto: handshakeproto.ProtoType_DRPC, Encodings: []handshakeproto.Encoding{handshakeproto.Encoding_Snappy}})
+					return err
+				}
+			}
+			ok := g.call(sub+".stalled-peer", m, func() error {
+				dctx, cancel := context.WithTimeout(context.Background(), 20*time.Millisecond)
+				defer cancel()
+				err := sf(dctx)
+				// the deadline closed the connection: give the library's worker the chance to come back from its Read
+				sc.mu.Lock()
+				parked := sc.parked
+				sc.mu.Unlock()
+				if parked {
+					select {
+					case <-sc.left:
+						c.Count("handshake.stalled_peer.worker_seen_leaving_after_deadline", 1)
+					case <-time.After(2 * time.Second):
+						c.Count("handshake.stalled_peer.worker_not_seen_leaving", 1)
+					}
+				}
+				c.Count("handshake.stalled_peer.calls", 1)
+				return err
+			})
+			if !ok {
+				return
+			}
+			continue
+		}
 		conn := &scriptConn{in: append([]byte(nil), in...), chunked: r.Intn(3) == 0}
 		if r.Intn(10) == 0 {
 			conn.failAt = 1 + r.Intn(64)
